@@ -216,6 +216,9 @@ pub struct Upload {
     /// A second, manager-only peer P whose bitfield and interest changes (Pb, Pi, Pn) fall into
     /// the same rotations as the connection's own.
     pub second: bool,
+    /// The manager's broadcasts to the connection task are held back and released by L events, so a
+    /// frame of the peer can be handled between a choke decision and its arrival at the task.
+    pub gated: bool,
 }
 
 #[derive(Default)]
@@ -235,12 +238,12 @@ const UP_REQUESTS: [(&str, (u32, u32, u32)); 4] = [("Q0", (0, 0, 1)), ("Q2", (2,
 impl Scenario for Upload {
     type Mon = UpMon;
     fn name(&self) -> String {
-        format!("upload-{}{}", if self.incoming { "incoming" } else { "outgoing" }, if self.second { "-with-second-peer" } else { "" })
+        format!("upload-{}{}", if self.incoming { "incoming" } else { "outgoing" }, if self.second { "-with-second-peer" } else if self.gated { "-gated" } else { "" })
     }
     fn cfg(&self) -> WorldCfg {
         // with the second peer: a file of the right length but other content already sits under the
         // name of piece 1, which the client lacks (a leftover of an interrupted run)
-        WorldCfg { torrent: torrent(), have: vec![0, 2], peers: vec![peer_cfg(0, !self.incoming)], gated: false, stale: if self.second { vec![1] } else { vec![] } }
+        WorldCfg { torrent: torrent(), have: vec![0, 2], peers: vec![peer_cfg(0, !self.incoming)], gated: self.gated, stale: if self.second { vec![1] } else { vec![] } }
     }
     fn explore_choices(&self) -> bool {
         true
@@ -265,6 +268,13 @@ impl Scenario for Upload {
             e.push("B".to_string());
         }
         e.extend(UP_REQUESTS.iter().map(|r| r.0.to_string()));
+        if self.gated {
+            // a reduced request alphabet keeps the gated search small
+            e.retain(|x| !x.starts_with('Q') || x == "Q0" || x == "Q1");
+            if !w.peers[0].pending.is_empty() {
+                e.push("L".to_string());
+            }
+        }
         if self.second {
             e.retain(|x| x != "Qb" && x != "Q2");
             if !mon.p_bitfield {
@@ -280,6 +290,7 @@ impl Scenario for Upload {
     fn concretize(&self, _w: &World, _mon: &UpMon, sym: &str) -> Vec<Ev> {
         let m = match sym {
             "R" => return vec![Ev::Rotate],
+            "L" => return vec![Ev::Release(0)],
             "Pb" => return vec![Ev::MgrBitfield(0, vec![false, true, false])],
             "Pi" => return vec![Ev::MgrInterested(0)],
             "Pu" => return vec![Ev::MgrUnchoke(0)],
@@ -321,8 +332,16 @@ impl Scenario for Upload {
                 Msg::Choke => mon.unchoked = false,
                 Msg::Piece(i, b, d) => {
                     pieces += 1;
-                    if !mon.unchoked {
-                        return Some(("piece-sent-while-choked", format!("Piece({},{},{}B) written although the last choke-state frame on this connection is Choke (or none)", i, b, d.len())));
+                    // "while it has that peer unchoked": with held-back broadcasts the manager's
+                    // record and the frames on the wire lag behind each other; a Piece is wrong when
+                    // BOTH say choked (the Choke has reached the task and the wire, and the task still
+                    // serves), and no choke decision for this peer is still held back -- the windows in which a decision
+                    // is in flight are nobody's fault
+                    let record_choked = w.snap().peers.iter().find(|p| p.addr == w.peers[0].cfg.addr).map(|p| p.am_choked).unwrap_or(true);
+                    let in_flight = w.peers[0].pending.iter().any(|b| matches!(b, rdest::verif::BroadCmd::SendOwnState { am_choked_map } if am_choked_map.contains_key(&w.peers[0].cfg.addr)));
+                    let choked = if self.gated { !mon.unchoked && record_choked && !in_flight } else { !mon.unchoked };
+                    if choked {
+                        return Some(("piece-sent-while-choked", format!("Piece({},{},{}B) written although the last choke-state frame on this connection is Choke (or none){}", i, b, d.len(), if self.gated { " and the manager has this peer choked" } else { "" })));
                     }
                     let r = match req {
                         Some(r) => r,
@@ -535,9 +554,9 @@ pub fn run(ctx: &Ctx) -> Outcome {
     // BFS part
     let mut bfs_total = explore::Stats { exhaustive: true, ..Default::default() };
     let mut per = vec![];
-    for (incoming, second) in [(true, false), (false, false), (false, true)] {
-        let sc = Upload { incoming, second };
-        let depth = if second { ctx.tier.pick(13, 16) } else { ctx.tier.pick(8, 13) };
+    for (incoming, second, gated) in [(true, false, false), (false, false, false), (false, true, false), (false, false, true)] {
+        let sc = Upload { incoming, second, gated };
+        let depth = if second { ctx.tier.pick(13, 16) } else if gated { ctx.tier.pick(7, 10) } else { ctx.tier.pick(8, 13) };
         let st = explore::bfs(ctx, &sc, depth, ctx.tier.pick(40, 20));
         per.push(json!({"scenario": Scenario::name(&sc), "depth": depth, "states": st.states, "transitions": st.transitions, "depth_completed": st.depth_completed}));
         bfs_total.merge(&st);
@@ -587,7 +606,7 @@ pub fn replay(_ctx: &Ctx, r: &Value) -> i32 {
         };
     }
     if let Some(name) = r["scenario"].as_str() {
-        return explore::replay_verbose(&Upload { incoming: name.contains("incoming"), second: name.contains("second-peer") }, &explore::hist_from_json(&r["history"]), "C09");
+        return explore::replay_verbose(&Upload { incoming: name.contains("incoming"), second: name.contains("second-peer"), gated: name.contains("-gated") }, &explore::hist_from_json(&r["history"]), "C09");
     }
     let c = Case {
         incoming: r["incoming"].as_bool().unwrap(),
